@@ -648,6 +648,7 @@ def run(ctx):
     C10_helpers.varint_parse_form(ctx, "C01.R7")
     C03.unit_table_check(ctx, "C01.R7")
     C03.pad_content(ctx, "C01.R7")
+    C03.numeric_names(ctx, "C01.R7")          # Float64l packs and unpacks with the 8-byte format its name says (a value built with another width does not come back)
     fi, paths = own_method_paths(ctx, "NullTerminated", "_parse")
     C08.null_terminated(ctx, fi, paths, "C01.R7")
     fi, paths = own_method_paths(ctx, "NullStripped", "_parse")
